@@ -385,7 +385,7 @@ def run_variant(case, var):
     # short histories before the queries (results must not depend on them, C09): rotated modality order, flipped kinds
     try:
         q0 = lambda mm: (mm.data_matrix(None), mm.diagnosis_matrix(None))  # noqa: E731
-        impl.run_primes(m, case, q0, [impl.prime_modality_order, impl.prime_with_flipped_kinds])
+        impl.run_primes(m, case, q0, [impl.prime_modality_order, impl.prime_with_flipped_kinds, impl.prime_renamed_modalities])
     except Exception:  # noqa: BLE001
         pass
     snap_ts = [None] + list(case["query_ts"])
